@@ -7,7 +7,8 @@
 From Coq Require Import List Arith Bool ZArith Floats.PrimFloat.
 Import ListNotations.
 From ByC Require Import Base.Result Base.ListAux Base.FloatBase Base.FloatFacts Model.Runs Model.Labels Model.Cycles Model.BurstFeat Model.Features
-  Proofs.Labels Proofs.LabelsOrder Proofs.BurstFeat Proofs.FeaturesSpec Proofs.Routing.
+  Proofs.Labels Proofs.LabelsOrder Proofs.BurstFeat Proofs.FeaturesSpec Proofs.Routing
+  Model.TableRuns Proofs.TableRuns.
 From ByC Require Import Harness.Compare.
 
 (* burst_fraction of a cycle = fraction of detector samples that are True over [last side,
@@ -114,3 +115,13 @@ Theorem C07_routing_precedence_example :
   run None (Some 2%Z) = Ok [true; true] /\ run None None = Ok [false; false] /\ run (Some 2%Z) None = Ok [true; true].
 Proof. exact routing_example. Qed.
 Print Assumptions C07_routing_precedence_example.
+
+(* detect_bursts_amp called twice on a fixed table (the second call on the RETURNED table, which already carries an
+   is_burst column): with burst_fraction_threshold raised and the same count, the second label column is contained
+   in the first - for arbitrary fraction values incl. NaN (the entry point evaluated against the implementation) *)
+Theorem C07_second_call_with_raised_threshold_only_removes_labels : forall t n t' rows lab lab',
+  finite t = true -> finite t' = true -> PrimFloat.leb t t' = true ->
+  run_labels_amp2 (t, n, (t', n), rows) = (Ok lab, Some (Ok lab')) ->
+  forall i, nth i lab' false = true -> nth i lab false = true.
+Proof. exact two_calls_amp_mono. Qed.
+Print Assumptions C07_second_call_with_raised_threshold_only_removes_labels.
